@@ -25,14 +25,38 @@ def row_loop(cx, fn):
     return lp, lp.target.elts[0].id, lp.target.elts[1].id, lp.body[0]
 
 
+def result_dicts_of(cx, fn, lp):
+    """(result dictionaries in return order, those filled only under a flag): names returned by the
+    function that are created empty before the row loop."""
+    order, per_ret = [], []
+    for r in fn.stmts(ast.Return):
+        if any(a is lp for a in fn.ancestors(r)):
+            continue
+        els = r.value.elts if isinstance(r.value, ast.Tuple) else [r.value]
+        names = [e.id for e in els if isinstance(e, ast.Name)]
+        per_ret.append(names)
+        for n in names:
+            if n not in order:
+                order.append(n)
+    dicts = []
+    for n in order:
+        defs = [s for s in fn.stmts(ast.Assign) if isinstance(s.targets[0], ast.Name) and s.targets[0].id == n and s.lineno < lp.lineno]
+        if defs and sym.norm(defs[0].value) in (sym.norm('collections.OrderedDict()'), sym.norm('dict()'), sym.norm('{}')):
+            dicts.append(n)
+    cx.need(dicts, '%s: no result dictionary is returned' % fn.qual)
+    flagged = [d for d in dicts if not all(d in names for names in per_ret)]
+    return dicts, flagged
+
+
 # ---------------------------------------------------------------------------
 # C11
 
-def exc_discipline(cx, qual, result_dicts, flag_dicts=()):
+def exc_discipline(cx, qual, result_dicts=None, flag_dicts=()):
     """(a) one outer handler for the row exception that records and continues; exactly one result per
     row on every normal path; (b) converting handlers do not fault."""
     fn = Fn(cx, qual)
     lp, rid, row, tr = row_loop(cx, fn)
+    result_dicts, flag_dicts = result_dicts_of(cx, fn, lp)
     hs = tr.handlers
     ok = len(hs) == 1 and handler_types(hs[0]) == [ROWEXC] and hs[0].name is not None and not tr.finalbody
     fn.ob('EXC', 'the per-row try has exactly one handler, for the row-level error type, binding the error', ok, tr,
@@ -108,12 +132,13 @@ def exc_discipline(cx, qual, result_dicts, flag_dicts=()):
     return fn
 
 
-def loop_independence(cx, qual, result_dicts):
+def loop_independence(cx, qual, result_dicts=None):
     """No state is carried from one row to the next: (i) every name assigned in the row body is
     definitely assigned in this iteration before it is read; (ii) nothing created before the loop is
     modified in the loop except the result dictionaries."""
     fn = Fn(cx, qual)
     lp, rid, row, tr = row_loop(cx, fn)
+    result_dicts, _ = result_dicts_of(cx, fn, lp)
     body_assigned = assigned_names(lp.body)
     for hnd in tr.handlers:
         if hnd.name:
@@ -290,38 +315,35 @@ def fault_table(cx):
         fn.ob('EXC', 'gate fraction outside [0,1] (ValueError of the density gate) -> row error carrying the gate\'s message', ok,
               dg[0] if dg else t, key='fault-gate-fraction')
     # beads: unequal numbers of MEF values
-    g = [s for s in fb.stmts(ast.If, tr) if raises_row(s.body) and 'mef_values' in names_in(s.test)]
-    ok = len(g) == 1 and sym.norm(g[0].test) == sym.norm('not np.all([len(v) == len(mef_values[0]) for v in mef_values])')
-    fb.ob('EXC', 'unequal numbers of MEF values across channels -> row error', ok, g[0] if g else tr, key='fault-mef-count')
-    # samples: units, calibration, acquisition settings
+    bb = inventory(fb, 'EXC', [
+        ('unequal numbers of MEF values across channels are detected', 'if not np.all([len(V) == len(MV[0]) for V in MV]):'),
+    ], ['V', 'MV'], root=tr)
+    g = bb['__matched__'].get('unequal numbers of MEF values across channels are detected')
+    fb.ob('EXC', 'unequal numbers of MEF values across channels -> row error', g is not None and raises_row(g.body), g or tr, key='fault-mef-count')
+    # samples: calibration, acquisition settings
     fn, t, rw = fs, trs, rows_
-    tests = {
-        'fault-no-calibration': ("mef_transform_fxns[%s['Beads ID']] is None" % rw, 'calibration missing for the requested beads -> row error'),
-        'fault-instrument': ("beads_iid != %s['Instrument ID']" % rw, 'beads acquired on another instrument -> row error'),
-        'fault-amplifier': ('beads_at != sample_at', 'beads acquired with another amplification type -> row error'),
-    }
-    for key, (test, inst) in tests.items():
-        g = [s for s in fn.stmts(ast.If, t) if sym.norm(s.test) == sym.norm(test) and raises_row(s.body)]
-        fn.ob('EXC', inst, len(g) == 1, g[0] if g else t, detail='' if len(g) == 1 else 'no `if %s: raise %s`' % (test, ROWEXC), key=key)
-    g = [s for s in fn.stmts(ast.If, t) if raises_row(s.body) and 'beads_dv' in names_in(s.test)]
-    smp = 'sample'
-    ok = len(g) == 1
-    if ok:
-        chv = [n for n in names_in(g[0].test) if n not in ('beads_dv', smp)]
-        ok = len(chv) == 1 and sym.norm(g[0].test) == sym.norm('%s.detector_voltage(%s) is not None and beads_dv != %s.detector_voltage(%s)'
-                                                             % (smp, chv[0], smp, chv[0]))
-    fn.ob('EXC', 'beads acquired with another detector voltage (when the sample records one) -> row error', ok, g[0] if g else t,
-          key='fault-voltage')
-    # definitions of the compared values
-    inventory(fn, 'EXC', [
+    loads = [c for c in fn.calls('FlowCal.io.FCSData', root=t)]
+    smp = fn.cfg.stmt_of(loads[0]).targets[0].id if loads and isinstance(fn.cfg.stmt_of(loads[0]), ast.Assign) else 'sample'
+    items = [
+        ('calibration missing for the requested beads -> row error', "if mef_transform_fxns[%s['Beads ID']] is None:" % rw),
         ('beads row looked up by the sample\'s Beads ID', "BR = beads_table.loc[%s['Beads ID']]" % rw),
-        ('beads instrument read from that row', "beads_iid = BR['Instrument ID']"),
-        ('beads amplification type read from the column the beads statistics wrote', "beads_at = BR['{} Amp. Type'.format(CH)]"),
-        ('beads detector voltage read from the column the beads statistics wrote', "beads_dv = BR['{} Detector Volt.'.format(CH)]"),
+        ('beads instrument read from that row', "BIID = BR['Instrument ID']"),
+        ('beads acquired on another instrument -> row error', "if BIID != %s['Instrument ID']:" % rw),
+        ('beads amplification type read from the column the beads statistics wrote', "BAT = BR['{} Amp. Type'.format(CH)]"),
         ('sample amplification type: Log iff the channel has decades', 'if %s.amplification_type(CH)[0]:' % smp),
-        ('... Log', "sample_at = 'Log'"),
-        ('... Linear', "sample_at = 'Linear'"),
-    ], ['BR', 'CH'], root=t)
+        ('... Log', "SAT = 'Log'"),
+        ('... Linear', "SAT = 'Linear'"),
+        ('beads acquired with another amplification type -> row error', 'if BAT != SAT:'),
+        ('beads detector voltage read from the column the beads statistics wrote', "BDV = BR['{} Detector Volt.'.format(CH)]"),
+        ('beads acquired with another detector voltage (when the sample records one) -> row error',
+         'if %s.detector_voltage(CH) is not None and BDV != %s.detector_voltage(CH):' % (smp, smp)),
+    ]
+    sb = inventory(fn, 'EXC', items, ['BR', 'BIID', 'BAT', 'SAT', 'BDV', 'CH'], root=t)
+    for inst, src in items:
+        if inst.endswith('-> row error'):
+            g = sb['__matched__'].get(inst)
+            if g is not None:
+                fn.ob('EXC', inst + ' (raised as the row-level error)', raises_row(g.body), g, key='raises|' + inst[:40])
     # no standard curve for the channel: the transformation call converts ValueError
     tc = [c for c in fn.calls(root=t) if isinstance(c.func, ast.Subscript) and dotted(c.func.value) == 'mef_transform_fxns']
     ok = len(tc) == 1
@@ -425,12 +447,16 @@ def units_dispatch(cx):
                                                'au': 'converted to RFI', 'mef': 'converted to RFI, then with the referenced beads\' calibration'}[u]),
               ok, body[0], detail='' if ok else 'calls: %s' % kinds, key='dispatch-' + u)
     # a channel is registered for reporting only after its conversion succeeded
-    reg = [s for s in fn.stmts(ast.Expr, floop) if sym.norm(s.value) == sym.norm('report_channels.append(%s)' % ch)]
+    reg = [s for s in fn.stmts(ast.Expr, floop) if isinstance(s.value, ast.Call) and isinstance(s.value.func, ast.Attribute)
+           and s.value.func.attr == 'append' and len(s.value.args) == 1 and sym.norm(s.value.args[0]) == ('var', ch)]
     ok = len(reg) == 1 and reg[0].lineno > c.end_lineno and any(reg[0] is s for s in fn.parent[id(c)].body) if reg else False
     fn.ob('DISPATCH', 'a channel is reported only after its conversion, and every converted channel is reported', ok, reg[0] if reg else c,
           key='report-after')
     # empty units cell -> channel left alone
-    sk = [s for s in fn.stmts(ast.If, floop) if sym.norm(s.test) == sym.norm('pd.isnull(units_str)') and isinstance(s.body[0], ast.Continue)]
+    sk = [s for s in fn.stmts(ast.If, floop) if isinstance(s.test, ast.Call) and dotted(s.test.func) == 'pd.isnull'
+          and isinstance(s.body[0], ast.Continue) and uvar is not None and uvar[0] == 'var'
+          and any(isinstance(d_, ast.Assign) and dotted(d_.targets[0]) == uvar[1] and dotted(s.test.args[0]) in ast.unparse(d_.value)
+                  for d_ in fn.stmts(ast.Assign, floop))]
     fn.ob('DISPATCH', 'a channel without units is left alone', len(sk) == 1, sk[0] if sk else floop, key='no-units')
     return fn
 
@@ -508,6 +534,7 @@ def _direct_child_of_try(fn, st, tr, allowed_ifs=()):
 def samples_pipeline(cx):
     fn = Fn(cx, SAMPLES)
     lp, rid, row, tr = row_loop(cx, fn)
+    RD = result_dicts_of(cx, fn, lp)[0][0]
     items = [
         ('instrument row looked up by the sample\'s Instrument ID', "IR = instruments_table.loc[%s['Instrument ID']]" % row),
         ('scatter channels = forward and side scatter channel of the instrument',
@@ -523,7 +550,7 @@ def samples_pipeline(cx):
         ('stage 6: density gate on the scatter channels at the row\'s fraction',
          "DGO = FlowCal.gate.density2d(data=G, channels=SC, gate_fraction=%s['Gate Fraction'], xscale='logicle', yscale='logicle', full_output=True)" % row),
         ('stage 6: gated sample is the gate\'s output', 'G = DGO.gated_data'),
-        ('stage 7: the gated sample is the row\'s result', '%s[%s] = G' % ('samples', rid)),
+        ('stage 7: the gated sample is the row\'s result', '%s[%s] = G' % (RD, rid)),
         ('reported channels start empty for each row', 'RC = []'),
     ]
     b = inventory(fn, 'PIPE', items, ['IR', 'SC', 'FL', 'X', 'FN', 'S', 'G', 'RC', 'DGO'], root=lp)
@@ -560,7 +587,7 @@ def samples_pipeline(cx):
     for st in fn.stmts((ast.Assign,), lp):
         nf = sym.stmt_nf(st)
         for i, (inst, src) in enumerate(items):
-            if inst.startswith('stage') and sym.unify(sym.parse_pattern(src), nf, {k: v for k, v in b.items()}, set(b)) is not None:
+            if inst.startswith('stage') and sym.unify(sym.parse_pattern(src), nf, {k: v for k, v in b.items() if k != '__matched__'}, {k for k in b if k != '__matched__'}) is not None:
                 stage_stmts[inst] = st
     for inst, st in sorted(stage_stmts.items()):
         cond = ["%s.data_type == 'I'" % G] if 'stage 5' in inst else []
@@ -588,6 +615,7 @@ def samples_pipeline(cx):
 def beads_pipeline(cx):
     fn = Fn(cx, BEADS)
     lp, rid, row, tr = row_loop(cx, fn)
+    RD = result_dicts_of(cx, fn, lp)[0][0]
     items = [
         ('instrument row looked up by the beads\' Instrument ID', "IR = instruments_table.loc[%s['Instrument ID']]" % row),
         ('scatter channels', "SC = [IR['Forward Scatter Channel'], IR['Side Scatter Channel']]"),
@@ -608,7 +636,7 @@ def beads_pipeline(cx):
          'MEF = [int(E) if E.strip().isdigit() else np.nan for E in MEF]'),
         ('stage 6: calibration from the gated beads with the row\'s values, channels and clustering channels',
          "MO = FlowCal.mef.get_transform_fxn(G, MV, mef_channels=MC, clustering_channels=CC, verbose=False, plot=plot, plot_filename=%s, plot_dir=os.path.join(base_dir, plot_dir) if plot_dir is not None else None, full_output=full_output, **get_transform_fxn_kwargs)" % rid),
-        ('the gated beads are the row\'s result', 'beads_samples[%s] = G' % rid),
+        ('the gated beads are the row\'s result', '%s[%s] = G' % (RD, rid)),
     ]
     b = inventory(fn, 'PIPE', items, ['IR', 'SC', 'FL', 'X', 'Y', 'FN', 'S', 'G', 'CC', 'DGO', 'MEF', 'E', 'MO', 'MV', 'MC'], root=lp)
     return fn
@@ -696,7 +724,8 @@ def run_sequence(cx):
         ('workbook written', 'write_workbook(output_path, TL)'),
         ('directory of the workbook', 'ID, IF = os.path.split(input_path)'),
     ]
-    b = inventory(fn, 'SEQ', items, ['IT', 'BT', 'ST', 'BS', 'MF', 'MO', 'SS', 'HT', 'AT', 'TL', 'ID', 'IF'])
+    b = inventory(fn, 'SEQ', items, ['IT', 'BT', 'ST', 'BS', 'MF', 'MO', 'SS', 'HT', 'AT', 'TL', 'ID', 'IF'],
+                  rebind_ok=('input_path', 'output_path'))
     # order
     def line(src_head):
         for st in fn.stmts((ast.Assign, ast.Expr)):
@@ -739,21 +768,22 @@ def read_write(cx):
     ok = len(g) == 1 and sym.norm(g[0].test) == sym.norm(
         "sheetname is None or (hasattr(sheetname, '__iter__') and not isinstance(sheetname, six.string_types))")
     fn.ob('GUARD', 'a missing sheet name or a list of sheets is refused', ok, g[0] if g else fn.ast, key='sheet-refusal')
-    drop = [s for s in fn.stmts(ast.Assign) if sym.norm(s.value) == sym.norm('table[pd.notnull(table.index)]')]
-    okd = len(drop) == 1 and any(isinstance(a, ast.If) and sym.norm(a.test) == sym.norm('index_col is not None') for a in fn.ancestors(drop[0]))
-    fn.ob('GUARD', 'rows without an identifier are dropped (when an index column is used)', okd, drop[0] if drop else fn.ast, key='drop-null')
-    dup = [x for x, p in guards(fn, exc=['ValueError']) if not p and sym.norm(x.test) == sym.norm('table.index.has_duplicates')]
-    okq = len(dup) == 1
-    fn.ob('GUARD', 'duplicated identifiers are refused', okq, dup[0] if dup else fn.ast, key='dup-refusal')
-    if okd and okq:
-        ok = drop[0].lineno < dup[0].lineno and not fn.cfg.reaches_avoiding(fn.cfg.node_of(dup[0]), fn.node(drop[0]), [])
-        fn.ob('GUARD', 'identifier-less rows are dropped before duplicates are looked for', ok, dup[0], key='drop-before-dup')
-    rets = fn.stmts(ast.Return)
-    ok = len(rets) == 1 and sym.norm(rets[0].value) == ('var', 'table')
-    fn.ob('GUARD', 'the table read is what is returned', ok, rets[0] if rets else fn.ast, key='return')
-    kw = [s for s in fn.stmts(ast.Assign) if isinstance(s.value, ast.Dict)]
-    ok = bool(kw) and sym.norm(kw[0].value) == sym.norm("{'io': file_in_mem, 'sheet_name': sheetname, 'index_col': index_col}")
-    fn.ob('GUARD', 'pandas reads the requested sheet with the requested index column', ok, kw[0] if kw else fn.ast, key='read-args')
+    rb = inventory(fn, 'GUARD', [
+        ('rows without an identifier are dropped', 'T = T[pd.notnull(T.index)]'),
+        ('... when an index column is used', 'if index_col is not None:'),
+        ('duplicated identifiers are detected', 'if T.index.has_duplicates:'),
+        ('the table read is what is returned', 'return T'),
+        ('pandas reads the requested sheet with the requested index column', "KW = {'io': MEM, 'sheet_name': sheetname, 'index_col': index_col}"),
+    ], ['T', 'KW', 'MEM'])
+    m = rb['__matched__']
+    drop, dup, cond = m.get('rows without an identifier are dropped'), m.get('duplicated identifiers are detected'), m.get('... when an index column is used')
+    if drop is not None and cond is not None:
+        fn.ob('GUARD', 'the drop happens exactly when an index column is used', fn.in_body_of(drop, cond, 'body'), drop, key='drop-cond')
+    if dup is not None:
+        fn.ob('GUARD', 'duplicated identifiers are refused (ValueError)', always_raises(dup.body) and 'ValueError' in raised_types(dup.body), dup, key='dup-refusal')
+    if drop is not None and dup is not None:
+        ok = drop.lineno < dup.lineno and not fn.cfg.reaches_avoiding(fn.cfg.node_of(dup), fn.node(drop), [])
+        fn.ob('GUARD', 'identifier-less rows are dropped before duplicates are looked for', ok, dup, key='drop-before-dup')
     fw = Fn(cx, 'excel_ui.write_workbook')
     inventory(fw, 'SEQ', [
         ('every (name, table) pair is written', 'for SN, DF in table_list:'),
